@@ -572,6 +572,7 @@ def _check_revalidation(ctx: Ctx, pr: FunctionInfo, acq: ast.Call, install: ast.
                         flag_fields.add(t.attr)
     flag_fields -= {lockf}
     gates: list[ast.If] = []
+    candidates: list[ast.If] = []
     for n in walk_scope(pr.node):
         if not isinstance(n, (ast.If, ast.While)):
             continue
@@ -582,19 +583,25 @@ def _check_revalidation(ctx: Ctx, pr: FunctionInfo, acq: ast.Call, install: ast.
             isinstance(x, ast.Attribute) and x.attr in flag_fields and isinstance(x.value, ast.Name) and x.value.id == evar for x in ast.walk(t))
         if not live:
             continue
+        candidates.append(n)  # type: ignore[arg-type]
         # a real gate: one outcome cannot reach the install
         tgt = cfg.attempt(install)
         blocked = [lab for lab in ("T", "F") if not (cfg.reach({v for (_u, v) in cfg.test_edges(n, lab)}, cfg.done(acq)) & tgt)]
         if blocked:
             gates.append(n)  # type: ignore[arg-type]
-    ok = False
-    if gates:
-        avoid = set()
-        for g in gates:
-            avoid |= cfg.done(g)
-        ok = not (cfg.reach(cfg.done(acq), avoid, include_start=False) & cfg.attempt(install))
-    ctx.check(ok, B, "liveness-revalidated-after-lock", pr, acq,
-              ok="between lock.acquire() and the context install the entry's liveness is re-checked against the registry and a dead entry is not dispatched",
-              bad=f"after `{txt(acq)}` returns, `{evar}` (looked up before waiting for the lock) is dispatched without re-checking that it is still registered: "
-                  "a DELETE / close_session / reaper that closed the session while this request waited is followed by a dispatch against the closed state",
-              path=cfg.describe_path(cfg.witness_path(cfg.done(acq), cfg.attempt(install)), pr.module.relpath) if not ok else None)
+    inst = "liveness-revalidated-after-lock"
+    if not candidates:
+        ctx.fail(B, inst, pr, acq,
+                 f"after `{txt(acq)}` returns, `{evar}` (looked up before waiting for the lock) is dispatched without re-checking that it is still registered: "
+                 "a DELETE / close_session / reaper that closed the session while this request waited is followed by a dispatch against the closed state",
+                 path=cfg.describe_path(cfg.witness_path(cfg.done(acq), cfg.attempt(install)), pr.module.relpath))
+        return
+    ctx.hold(B, inst, pr, candidates[0], "between lock.acquire() and the context install the entry's liveness is re-checked against the registry")
+    avoid: set[int] = set()
+    for g in gates:
+        avoid |= cfg.done(g)
+    ok = bool(gates) and not (cfg.reach(cfg.done(acq), avoid, include_start=False) & cfg.attempt(install))
+    ctx.check(ok, B, "liveness-gate-blocks-dispatch", pr, candidates[0],
+              ok="a dead entry found by the re-check is not dispatched (that outcome cannot reach the context install)",
+              bad="the liveness re-check after the acquire does not stop the request: both of its outcomes (or a path around it) reach the context install, so a closed session is still dispatched",
+              path=cfg.describe_path(cfg.witness_path(cfg.done(acq), cfg.attempt(install), avoid), pr.module.relpath) if not ok else None)
